@@ -93,7 +93,7 @@ def st(n):
     if isinstance(n, N.CallBlock):
         return 'SCallBlock (%s) %s' % (ex(n.call), sts(n.body))
     if isinstance(n, N.Macro):
-        return 'SMacro %s %s %s' % (cstr(n.name), cstrs([a.name for a in n.args]), sts(n.body))
+        return 'SMacro %s %s %s %s' % (cstr(n.name), cstrs([a.name for a in n.args]), clist(['(%s)' % ex(d) for d in n.defaults]), sts(n.body))
     if isinstance(n, N.Block):
         return 'SBlock %s %s' % (cstr(n.name), sts(n.body))
     if isinstance(n, N.Extends):
